@@ -1,4 +1,5 @@
 import SqVerif.SkelLemmas
+import SqVerif.SkelAcceptLemmas
 import SqVerif.Gen.Skeleton
 /-!
 # C04 — "Every operation completes and no lock outlives it": the per-operation lock accounting (Tie B)
@@ -10,13 +11,21 @@ mentions `Gen.` is a `decide`d obligation over the regenerated terms.
 * T04.2 `all_methods_balanced` and one `<method>_balanced` per anchored method: every path — normal, return or
   exceptional, with an exception possible at every call — ends holding no lock.  Exceptions, stated exactly:
   lock primitives (`primitives_net_effect`), `_lock_nodes` (F15, `lock_nodes_timeout_path`), the two-qubit gate
-  (`two_qubit_gate_*`), `remote_merge_from` (`merge_from_keeps_new_qubit_locks`).
+  (`two_qubit_gate_*`: its NODE locks are balanced whenever no lock time-out fires —
+  `two_qubit_gate_node_locks_balanced`, which pins the `try/except` around `_lock_inreg(self)` and the nested
+  `try/finally` around `_unlock_inreg(self)` —, what can remain are register qubit locks,
+  `two_qubit_gate_net_effect`), `remote_merge_from` (`merge_from_keeps_new_qubit_locks`).
 * T04.4 `hold_and_wait_edges`: the only waits without time-out while a node lock is held are those of `send`
   (F8, crossing sends).
 * structural facts for C05/C06: `checks_precede_mutations`, `active_guard_first`.
 
-What is assumed, not proved here: the translator (harness/gen/skel.py) and its expression→role table; `assert`s
-hold; acquiring/releasing a lock and the lock calls themselves do not raise.
+* trace acceptance (`trace_acceptance_*`): the executable acceptor `Skel.accepts`, which the harness
+  (harness/skeltrace.py, driver run/skel.lean) runs on the traces recorded from the REAL code, only accepts what a
+  path of the skeleton shows to an observer — the dynamic check of the translator.
+
+What is assumed, not proved here: the translator (harness/gen/skel.py) and its expression→role table (validated
+dynamically by trace acceptance, on the event kinds listed in SkelAccept.lean); `assert`s hold; acquiring/releasing a
+lock and the lock calls themselves do not raise.
 -/
 namespace SqVerif.C04
 open SqVerif.Skel SqVerif.Gen
@@ -77,10 +86,57 @@ example : locksBalanced (.seq (.acquire .SELF false)
     (.seq (.seq (.call .RECV "add_qubit" false) (.mutate .SELF "virtQubits")) (.release .SELF))) = false := by
   decide +kernel
 
+/-! ### trace acceptance: the acceptor run on the real traces is sound -/
+
+/-- a recorded trace of an activation that RETURNED is accepted only if some path of the skeleton that ends normally
+    or by `return` shows exactly these observations: its events are covered, in order, by the observations (`Mt`:
+    nothing for an unobserved event, one observation for an observed one, one per member for an event on a set role).
+    All statement forms, loops included. -/
+theorem trace_acceptance_ret (s : Stmt) (tr : List Obs) (h : accepts s tr .ret = true) :
+    ∃ tr' e, paths s tr' e ∧ (e = .norm ∨ e = .ret) ∧ Mt obsCard obsMatch tr' tr :=
+  accepts_ret_sound s tr h
+
+/-- … of an activation that RAISED: some path that ends with an exception -/
+theorem trace_acceptance_exc (s : Stmt) (tr : List Obs) (h : accepts s tr .exc = true) :
+    ∃ tr', paths s tr' .exc ∧ Mt obsCard obsMatch tr' tr :=
+  accepts_exc_sound s tr h
+
+/-- … of an activation that has not ended (hung, cancelled): some partial path (`PSem`, the prefix semantics) -/
+theorem trace_acceptance_open (s : Stmt) (tr : List Obs) (h : accepts s tr .open = true) :
+    ∃ tr', ppaths s tr' ∧ Mt obsCard obsMatch tr' tr :=
+  accepts_open_sound s tr h
+
+/-- the prefix semantics contains every complete path -/
+theorem complete_paths_are_partial (s : Stmt) (tr : List Ev) (e : Exit) (h : paths s tr e) : ppaths s tr :=
+  paths_ppaths s tr e h
+
+-- concrete instances on a regenerated skeleton: what `remote_new_qubit` really does is accepted (creation, and
+-- the refusal when the node is full); a trace without the final release, or with the list mutated outside the
+-- lock, is not
+example : accepts Gen.remote_new_qubit
+    [.acq [.SELF], .mut [.SELF] "registers", .mut [.SELF] "simQubits", .mut [.SELF] "virtQubits", .rel [.SELF]] .ret = true := by
+  decide +kernel
+example : accepts Gen.remote_new_qubit [.acq [.SELF], .rel [.SELF]] .exc = true := by decide +kernel
+example : accepts Gen.remote_new_qubit [.acq [.SELF], .rel [.SELF]] .ret = false := by decide +kernel
+example : accepts Gen.remote_new_qubit
+    [.acq [.SELF], .mut [.SELF] "registers", .mut [.SELF] "simQubits", .mut [.SELF] "virtQubits"] .ret = false := by
+  decide +kernel
+example : accepts Gen.remote_new_qubit
+    [.acq [.SELF], .mut [.SELF] "registers", .mut [.SELF] "simQubits", .rel [.SELF], .mut [.SELF] "virtQubits"] .ret = false := by
+  decide +kernel
+
 /-! ### the regenerated skeletons (T04.2) -/
 
 /-- nothing in the translated methods was beyond the translator -/
 theorem no_opaque : allMethods.all (fun m => !m.2.hasOpaque) = true := by decide +kernel
+
+-- `try … except Exception` catches every exception of its body (`tryCatch`), `except <SomeError>` may let one pass
+example : locksBalanced (.seq (.acquire .SELF false)
+    (.seq (.tryCatch (.call .RECV "f" false) (.seq (.release .SELF) (.raise .remote))) (.release .SELF))) = true := by
+  decide +kernel
+example : locksBalanced (.seq (.acquire .SELF false)
+    (.seq (.tryExcept (.call .RECV "f" false) (.seq (.release .SELF) (.raise .remote))) (.release .SELF))) = false := by
+  decide +kernel
 
 /-- lock primitives: acquiring or releasing is their purpose; their net effect is pinned below -/
 def lockPrimitives : List String :=
@@ -91,7 +147,7 @@ def lockPrimitives : List String :=
 
 /-- methods whose lock accounting does not close, each with its own exact statement below -/
 def knownUnbalanced : List String :=
-  ["_two_qubit_gate", "remote_cnot_onto", "remote_cphase_onto",   -- F15 time-out path, and two leaks on errors
+  ["_two_qubit_gate", "remote_cnot_onto", "remote_cphase_onto",   -- F15 time-out path; register qubit locks on errors
    "remote_merge_from"]                                            -- keeps the new qubits locked for its caller
 
 /-- T04.2: every other translated method — whatever methods the source has on this run — is balanced -/
@@ -130,6 +186,13 @@ theorem helper_net_effect :
     netEffects Gen._lock_simulating_node = some [([.node (.SIM .c)], false), ([], false)] ∧
     netEffects Gen._lock_inreg = some [([], false), ([.qubit (.REG .c)], false)] := by decide +kernel
 
+/-- the optimistic retries (`_lock_simulating_node`, `_lock_nodes`) are loops: the self-call is in tail position and
+    passes every parameter through (`exclude=exclude`, `target=target`).  A retry that drops `exclude` runs with
+    the `in exclude` test dead — the translator refuses it (`Stmt.opaque "retry of … does not pass … through"`) -/
+theorem retries_pass_their_arguments :
+    Gen._lock_simulating_node.hasOpaque = false ∧ Gen._lock_nodes.hasOpaque = false ∧
+    Gen.remote_send_qubit.hasOpaque = false := by decide +kernel
+
 /-! ### `_lock_nodes` (F15) -/
 
 /-- without a time-out `_lock_nodes` ends holding exactly the requested set, and never over-releases -/
@@ -147,9 +210,28 @@ theorem lock_nodes_accounting_open : netEffects Gen._lock_nodes = none := by dec
 
 /-! ### the two-qubit gate -/
 
-/-- node locks of the two-qubit gate are balanced on every path on which no lock time-out fires and
-    `get_sim_number` (inside `_lock_inreg`, called *before* the `try`) does not fail;
-    qubit locks likewise, except those of the target's register (next theorem) -/
+/-- the NODE locks of the two-qubit gate are balanced on every path on which no lock time-out fires — whatever
+    fails, wherever: `_lock_inreg(self)` (its failure is caught, the node locks are given back, the exception goes
+    on), anything inside the `try`, and `_unlock_inreg(self)` in the `finally` (the release loop is in a `finally`
+    of its own).  Either repair reverted (the `try/except Exception` around `_lock_inreg(self)`, the nested
+    `try/finally`) makes this false. -/
+theorem two_qubit_gate_node_locks_balanced : nodeLocksBalanced (noTimeout Gen._two_qubit_gate) = true := by
+  decide +kernel
+
+theorem cnot_cphase_node_locks_balanced :
+    nodeLocksBalanced (noTimeout Gen.remote_cnot_onto) = true ∧
+    nodeLocksBalanced (noTimeout Gen.remote_cphase_onto) = true := by decide +kernel
+
+/-- … and exactly what can remain when no time-out fires: nothing; the qubit locks of the control's register
+    (only when `get_sim_number` fails inside `_unlock_inreg`); those of the target's register (below); both.
+    No node lock, no pending request, and never a release of a lock that is not held. -/
+theorem two_qubit_gate_net_effect :
+    netEffects (noTimeout Gen._two_qubit_gate) =
+      some [([], false), ([.qubit (.REG .c)], false), ([.qubit (.REG .t)], false),
+            ([.qubit (.REG .c), .qubit (.REG .t)], false)] := by decide +kernel
+
+/-- qubit locks other than those of the target's register are balanced as well when `get_sim_number` (a getter
+    of an immutable identifier, called inside `_lock_inreg` / `_unlock_inreg`) does not fail -/
 theorem two_qubit_gate_balanced_partial :
     locksBalancedExcept (fun l => l == .qubit (.REG .t))
       (dropCalls (fun m => m == "get_sim_number") (noTimeout Gen._two_qubit_gate)) = true := by decide +kernel
@@ -160,17 +242,19 @@ theorem cnot_cphase_balanced_partial :
     locksBalancedExcept (fun l => l == .qubit (.REG .t))
       (dropCalls (fun m => m == "get_sim_number") (noTimeout Gen.remote_cphase_onto)) = true := by decide +kernel
 
-/-- the target register's qubit locks are taken by `_lock_inreg(target)` and never released under that name:
-    after a merge they are part of the control's register; on an error between the two they stay locked -/
+/-- still open: the target register's qubit locks are taken by `_lock_inreg(target)` and never released under that
+    name: after a merge they are part of the control's register; on an error between the two they stay locked -/
 theorem two_qubit_gate_target_reg_locks_open :
     locksBalanced (dropCalls (fun m => m == "get_sim_number") (noTimeout Gen._two_qubit_gate)) = false := by decide +kernel
 
-/-- `_lock_inreg(self)` runs between `_lock_nodes` and the `try`: if its `get_sim_number` call fails, every
-    node lock leaks (no time-out involved) -/
-theorem two_qubit_gate_leak_before_try : nodeLocksBalanced (noTimeout Gen._two_qubit_gate) = false := by decide +kernel
+/-- still open: if `get_sim_number` fails inside `_unlock_inreg(self)` the control register's qubit locks stay
+    (the node locks do not: previous theorems) -/
+theorem two_qubit_gate_control_reg_locks_open_if_unlock_fails :
+    locksBalancedExcept (fun l => l == .qubit (.REG .t)) (noTimeout Gen._two_qubit_gate) = false := by decide +kernel
 
-/-- and with time-outs: F15 -/
-theorem two_qubit_gate_unbalanced : nodeLocksBalanced Gen._two_qubit_gate = false := by decide +kernel
+/-- still open, F15: with lock time-outs (the `cancel` / release-every-requested-node path of `_lock_nodes`) not
+    even the node locks are balanced -/
+theorem two_qubit_gate_timeout_unbalanced : nodeLocksBalanced Gen._two_qubit_gate = false := by decide +kernel
 
 /-- `remote_merge_from` returns with the new simulated qubits locked (its caller unlocks the merged register);
     everything else is balanced -/
@@ -227,8 +311,8 @@ theorem remote_new_qubit_checks_first : checksPrecedeMuts Gen.remote_new_qubit =
 /-- the operations issued through a qubit handle -/
 def handleOps : List String :=
   ["_single_gate", "remote_apply_X", "remote_apply_Y", "remote_apply_Z", "remote_apply_H", "remote_apply_K",
-   "remote_apply_T", "remote_apply_rotation", "remote_measure", "remote_cnot_onto", "remote_cphase_onto",
-   "_two_qubit_gate", "remote_send_qubit"]
+   "remote_apply_S", "remote_apply_T", "remote_apply_rotation", "remote_measure", "remote_cnot_onto",
+   "remote_cphase_onto", "_two_qubit_gate", "remote_send_qubit"]
 
 /-- T06.2: each of them tests `active` before any lock operation, mutation or call -/
 theorem active_guard_first : ∀ m ∈ allMethods, m.1 ∈ handleOps → activeGuardFirst m.2 = true := by decide +kernel
